@@ -167,21 +167,32 @@ func buildDoc(es []rawElem) []byte {
 	return append(out, 0)
 }
 
-// inflateAll returns the bytes the zlib reader yields and whether the header was accepted
+// inflateAll returns the bytes the zlib reader yields, whether the header was accepted, and whether the stream
+// is complete: final block and Adler-32 trailer present and correct, no byte left over behind it
 func inflateAll(z []byte) (data []byte, headerOK bool, clean bool) {
-	zr, err := zlib.NewReader(bytes.NewReader(z))
+	br := bytes.NewReader(z) // an io.ByteReader: flate reads no further than the end of the stream
+	zr, err := zlib.NewReader(br)
 	if err != nil {
 		return nil, false, false
 	}
 	var buf bytes.Buffer
 	_, err = io.Copy(&buf, zr)
-	return buf.Bytes(), true, err == nil
+	return buf.Bytes(), true, err == nil && br.Len() == 0
 }
+
+// normalizeEncoded is normalizeStream for bytes an ENCODER produced (Resolve results, writer logs): the format
+// asks for a complete zlib stream, so an incomplete one (cut before its final block or checksum, or followed by
+// stray bytes) gets flag byte 2, which the model's codec does not accept
+func normalizeEncoded(b []byte) []byte { return normalizeWith(b, true) }
+
+// normalizeStream is the lenient form used for bytes handed to a READER, which takes from the zlib stream only
+// what it needs
+func normalizeStream(b []byte) []byte { return normalizeWith(b, false) }
 
 // normalizeStream replaces the zlib stream inside every "data" binary by a flag byte
 // (1 = header accepted, 0 = rejected) followed by the inflated bytes. The model is
 // extracted with this trivial codec in place of zlib (DESIGN.md section 6).
-func normalizeStream(b []byte) []byte {
+func normalizeWith(b []byte, strict bool) []byte {
 	docs, rest := walkDocs(b)
 	out := []byte{}
 	for _, d := range docs {
@@ -196,9 +207,12 @@ func normalizeStream(b []byte) []byte {
 		for i, e := range es {
 			if e.key == "data" && e.t == 0x05 && len(e.val) >= 5+4 && int(binary.LittleEndian.Uint32(e.val)) == len(e.val)-5 {
 				zb := e.val[5:]
-				raw, hok, _ := inflateAll(zb[4:])
+				raw, hok, clean := inflateAll(zb[4:])
 				nd := append([]byte{}, zb[:4]...)
-				if hok {
+				if hok && strict && !clean {
+					nd = append(nd, 2)
+					nd = append(nd, raw...)
+				} else if hok {
 					nd = append(nd, 1)
 					nd = append(nd, raw...)
 				} else {
@@ -312,6 +326,39 @@ func wrapCollector(c ftdc.Collector, wrapper string) ftdc.Collector {
 	return c
 }
 
+// wcollAdapter drives the io.WriteCloser entry point NewWriterCollector (a streaming dynamic collector behind
+// Write): Add goes through Write, every other operation reaches the collector behind it (verif-tag accessor).
+type wcollAdapter struct {
+	ftdc.Collector
+	wc io.WriteCloser
+}
+
+type nopWriteCloser struct{ io.Writer }
+
+func (nopWriteCloser) Close() error { return nil }
+
+func newWcoll(n int, w io.Writer) ftdc.Collector {
+	wc := ftdc.NewWriterCollector(n, nopWriteCloser{w})
+	return &wcollAdapter{Collector: ftdc.VerifWriterCollectorInner(wc), wc: wc}
+}
+
+func (a *wcollAdapter) Add(d interface{}) error {
+	b, ok := d.([]byte)
+	if !ok {
+		return a.Collector.Add(d)
+	}
+	_, err := a.wc.Write(b)
+	return err
+}
+
+// pickWrapper chooses a wrapper for a history; a third of the streaming dynamic cases go through NewWriterCollector
+func pickWrapper(r *rng, kind string) string {
+	if kind == "sdyn" && r.chance(1, 3) {
+		return "wcoll"
+	}
+	return wrappers[r.intn(len(wrappers))]
+}
+
 func addClass(err error) string {
 	if err == nil {
 		return "ok"
@@ -333,7 +380,7 @@ func addClass(err error) string {
 // renderOut renders Resolve output / one write: "b:<hex normalised FTDC>" or "d:<hexdoc>,<hexdoc>" or "j:<hex of raw JSON text>"
 func renderOut(kind string, p []byte) string {
 	if !isUncompressed(kind) {
-		return "b:" + hex.EncodeToString(normalizeStream(p))
+		return "b:" + hex.EncodeToString(normalizeEncoded(p))
 	}
 	if isJSONKind(kind) {
 		return "j:" + hex.EncodeToString(p)
@@ -353,7 +400,7 @@ func renderOut(kind string, p []byte) string {
 // sniff: an FTDC chunk stream starts with a document holding _id/type/data
 func renderSmart(kind string, p []byte) string {
 	if isUncompressed(kind) && looksLikeFTDC(p) {
-		return "b:" + hex.EncodeToString(normalizeStream(p))
+		return "b:" + hex.EncodeToString(normalizeEncoded(p))
 	}
 	return renderOut(kind, p)
 }
@@ -384,16 +431,21 @@ type hcase struct {
 	n       int
 	ops     []hop
 	faults  []fault
-	logEach bool // record the writer log after every operation
-	tag     string // profile tag copied to the CASE line (selects oracles in the driver)
-	probe   bool // after every operation also observe Resolve ("r"), Info ("i") and the writer log
+	logEach bool     // record the writer log after every operation
+	tag     string   // profile tag copied to the CASE line (selects oracles in the driver)
+	probe   bool     // after every operation also observe Resolve ("r"), Info ("i") and the writer log
 	expect  [][]elem // inputs expected to be decodable from (writer log ++ final Resolve), if known
 	hasExp  bool
 }
 
 func runHistory(o *out, id int, c hcase) {
 	w := &logWriter{faults: append([]fault{}, c.faults...)}
-	coll := wrapCollector(newCollector(c.kind, c.n, w), c.wrapper)
+	var coll ftdc.Collector
+	if c.wrapper == "wcoll" && c.kind == "sdyn" {
+		coll = newWcoll(c.n, w)
+	} else {
+		coll = wrapCollector(newCollector(c.kind, c.n, w), c.wrapper)
+	}
 	fs := []string{}
 	for _, f := range c.faults {
 		switch f.kind {
@@ -417,7 +469,10 @@ func runHistory(o *out, id int, c hcase) {
 		switch h.op {
 		case 'A':
 			var err error
-			if h.raw != nil {
+			if h.raw != nil && c.wrapper == "wcoll" {
+				// Write refuses unreadable bytes before the collector sees them (no flush): not an operation of the model
+				continue
+			} else if h.raw != nil {
 				err = coll.Add(h.raw)
 				o.printf("B %s => %s\n", hex.EncodeToString(h.raw), addClass(err))
 			} else {
@@ -433,7 +488,7 @@ func runHistory(o *out, id int, c hcase) {
 			}
 			// Resolve must be repeatable: a second call returns the same bytes
 			p2, err2 := coll.Resolve()
-			if (err == nil) != (err2 == nil) || (err == nil && !isUncompressed(c.kind) && !bytes.Equal(normalizeStream(p), normalizeStream(p2))) ||
+			if (err == nil) != (err2 == nil) || (err == nil && !isUncompressed(c.kind) && !bytes.Equal(normalizeEncoded(p), normalizeEncoded(p2))) ||
 				(err == nil && isUncompressed(c.kind) && !bytes.Equal(p, p2)) {
 				o.printf("NOTE resolve-not-repeatable\n")
 			}
